@@ -284,9 +284,12 @@ def gen_threads(tier):
         params = PARAMS[app]
         return [app, params[p % len(params)], index]
     req = st.builds(mk, st.sampled_from(sorted(PARAMS)), st.integers(0, 1000), st.sampled_from([0, 1, 2, 3, H - 1]))
+    # ordinary wallet use of the SAME master node from another thread (account / address derivations)
+    walk = st.lists(st.one_of(st.sampled_from([44 + H, 49 + H, 84 + H, H, 0, 1]), S.indexes()), min_size=1, max_size=3).map(
+        lambda pth: ["derive", None, pth])
     return st.fixed_dictionaries({
         "k": S.scalars(), "c": S.chain_codes(), "warmup": st.lists(req, max_size=2),
-        "threads": st.lists(st.lists(req, min_size=1, max_size=2), min_size=2, max_size=3),
+        "threads": st.lists(st.lists(st.one_of(req, req, walk), min_size=1, max_size=2), min_size=2, max_size=3),
         "plan": st.lists(st.tuples(st.integers(0, 2), st.integers(1, 25)), min_size=3, max_size=60)})
 
 
@@ -297,7 +300,8 @@ def check_threads(case, ctx):
     import btc_hd_wallet.wallet_utils as mwu
     Prv, B85, BaseWallet, PaperWallet = _impl()
     rm = R.Node.from_priv(case["k"], case["c"])
-    b = B85(master_node=Prv(key=case["k"].to_bytes(32, "big"), chain_code=case["c"]))
+    master = Prv(key=case["k"].to_bytes(32, "big"), chain_code=case["c"])
+    b = B85(master_node=master)
     for app, param, index in case["warmup"]:
         call(app_call, b, app, param, index)
 
@@ -305,7 +309,10 @@ def check_threads(case, ctx):
         def run():
             out = []
             for app, param, index in reqs:
-                st_, v = call(app_call, b, app, param, index)
+                if app == "derive":
+                    st_, v = call(lambda: master.derive_path(list(index)).extended_private_key())
+                else:
+                    st_, v = call(app_call, b, app, param, index)
                 out.append(v if st_ == "ok" else ["EXC", repr(v)])
             return out
         return run
@@ -318,12 +325,17 @@ def check_threads(case, ctx):
             raise Violation("C12/threads/crashed", "thread %d raised %r" % (t, errors[t]))
         for j, (app, param, index) in enumerate(reqs):
             try:
-                want, _ = app_expect(rm, app, param, index)
+                if app == "derive":
+                    want = R.derive(rm, list(index)).xprv(R.XPRV)
+                else:
+                    want, _ = app_expect(rm, app, param, index)
             except R.Invalid:
                 continue
+            if app == "derive":
+                ctx.count("wallet-derivation-beside-bip85")
             if results[t][j] != want:
-                raise Violation("C12/threads/value-differs[%s]" % app, "with %d threads sharing one BIP85 object, %s(param=%r, "
-                                "index=%d) = %r, BIP85 defines %r" % (len(case["threads"]), app, param, index, results[t][j], want))
+                raise Violation("C12/threads/value-differs[%s]" % app, "with %d threads sharing one BIP85 object and its master node, %s(param=%r, "
+                                "index=%r) = %r, expected %r" % (len(case["threads"]), app, param, index, results[t][j], want))
 
 
 DEFAULTS = {"mnemonic": 24, "hex": 32, "pwd": 21}
@@ -397,10 +409,19 @@ def clauses():
                enum_desc="2 masters x (6 hex + 5 pwd + 5 mnemonic values + 3 wif/xprv indexes) x 3-7 call styles",
                shards={"quick": 8, "thorough": 8}),
         Clause("shared-object-threads", check_threads,
-               "2..3 threads issue 1..2 application requests each on ONE BIP85 object (after 0..2 warm-up requests) under "
+               "2..3 threads issue 1..2 requests each - BIP85 applications on ONE BIP85 object, or ordinary derive_path "
+               "walks on the very master node it wraps - (after 0..2 warm-up requests) under "
                "the deterministic line-granularity scheduler; every answer must equal independent BIP85; non-trivial = "
                ">= 2 thread switches (measured)", gen=gen_threads,
                n={"quick": 150, "thorough": 6000}, shards={"quick": 16, "thorough": 16}),
+        Clause("invalid-level", lambda case, ctx: __import__("vlib.props.c18", fromlist=["x"]).check_bip85_path(case, ctx, sig="C12/invalid-level"),
+               "'rejected rather than mapped onto some other path': when the child at a generated level of the "
+               "application path is invalid (PRF substitute keyed on that level's CKD message) the request must fail - not "
+               "answer with the secret of a neighbouring index or path - also when repeated, and index+1 is still "
+               "served correctly afterwards",
+               gen=lambda tier: __import__("vlib.props.c18", fromlist=["x"]).gen_bip85_path(tier),
+               classes=lambda c: ["%s:%s" % (c["app"], c["kind"])],
+               n={"quick": 400, "thorough": 20000}, shards={"quick": 16, "thorough": 16}),
         Clause("paper-block", check_block,
                "PaperWallet.bip85_data(): its nine labelled entries equal BIP85 at exactly the labelled paths",
                gen=lambda tier: st.fixed_dictionaries({"seed": S.seeds(16, 64), "testnet": st.booleans()}),
